@@ -2,6 +2,7 @@ package main
 
 import (
 	"context"
+	"errors"
 	"strings"
 	"time"
 
@@ -38,6 +39,18 @@ func execSemaSeq(args []string) string {
 			cf()
 		case 'c':
 			if err := s.Acquire(cancelled); err == nil {
+				held++
+				out = append(out, "ok")
+			} else if err == context.Canceled {
+				out = append(out, "err")
+			} else {
+				out = append(out, "other:"+sanitize(err.Error()))
+			}
+		case 'k':
+			// a context cancelled with a custom cause: "the context's error" is ctx.Err(), not the cause
+			cctx, ccancel := context.WithCancelCause(context.Background())
+			ccancel(errors.New("custom cause"))
+			if err := s.Acquire(cctx); err == nil {
 				held++
 				out = append(out, "ok")
 			} else if err == context.Canceled {
@@ -101,7 +114,7 @@ func genC17(g *G) {
 			if len(cur) == L {
 				return
 			}
-			for _, c := range "acr" {
+			for _, c := range "acrk" {
 				if g.Quick() && len(cur) >= 3 && g.Rnd.IntN(3) != 0 {
 					continue
 				}
